@@ -491,7 +491,7 @@ def derived_names(lm):
     for t, _ in lm["cells"]:
         out += [t, t.lower(), t.capitalize()]
         out += [t[k:] for k in range(1, len(t))] + [t[:k] for k in range(1, len(t))]
-        out += ["p" + t[k:] for k in range(1, len(t), 2)] + [t[-1] + " ", "@" + t, t + "@", "x_" + t, t[-2:] + t[-2:]]
+        out += ["p" + t[k:] for k in range(1, len(t), 2)] + [t[-1] + " ", "@" + t, t + "@", "x_" + t, t[-2:] + t[-2:], "a @ " + t]
     return sorted(set(out))
 
 
